@@ -3,6 +3,7 @@ package filters
 import (
 	"bytes"
 	"fmt"
+	"math"
 )
 
 // ASCIIHexDecode decodes ASCII hexadecimal encoded data.
@@ -135,10 +136,15 @@ func ASCII85Decode(data []byte) ([]byte, error) {
 		}
 
 		// Convert base-85 to binary
-		// Each group of 5 digits represents 4 bytes
-		value := uint32(0)
+		// Each group of 5 digits represents 4 bytes. Accumulate in 64 bits so
+		// that a group whose value exceeds 2^32-1 (which a conforming encoder
+		// never produces) is reported instead of silently wrapping around.
+		value := uint64(0)
 		for _, d := range digits {
-			value = value*85 + uint32(d)
+			value = value*85 + uint64(d)
+		}
+		if value > math.MaxUint32 {
+			return nil, fmt.Errorf("invalid ASCII85 group: value %d exceeds 2^32-1", value)
 		}
 
 		// Extract bytes (big-endian)
